@@ -52,7 +52,7 @@ Definition dir_eff (lim : limits) (cur base d : Z) : eff :=
 (* a file entry: :302-364 with unzipZippedFile and unzipNestedZipFiles inlined.  [sub c b'] are the effects of the
    entries of the nested archive when it is unzipped with currentDepth c into a destination at true depth b'. *)
 Definition file_eff (lim : limits) (cur base d : Z) (zn : bool) (decl act : Z) (crc op : bool) (b : body)
-                    (sub : Z -> Z -> list eff) : eff :=
+                    (rmok : bool) (sub : Z -> Z -> list eff) : eff :=
   let fd := entry_depth lim cur d in
   let c0 := count0 lim zn in
   let pdir := parent_dir base d in
@@ -73,7 +73,9 @@ Definition file_eff (lim : limits) (cur base d : Z) (zn : bool) (decl act : Z) (
     (* unzipNestedZipFiles: unzip(nested, dir/stem, limits, fileDepth+1), then Rm(nested) *)
     let r := open_archive lim (fd + 1) written (is_good b) [NDir here] (sub (fd + 1) (here + 1)) in
     match r_kind r with
-    | None => mkEff None (c0 + r_cnt r) (r_tot r) true (pdir ++ r_nodes r) (w ++ r_writes r)              (* :352-354 *)
+    | None =>
+        if rmok then mkEff None (c0 + r_cnt r) (r_tot r) true (pdir ++ r_nodes r) (w ++ r_writes r)       (* :352-354 *)
+        else mkEff (Some Other) c0 0 false (pdir ++ fnode :: r_nodes r) (w ++ r_writes r)                 (* :390-393 Rm fails *)
     | Some k => mkEff (Some k) c0 0 false (pdir ++ fnode :: r_nodes r) (w ++ r_writes r)                      (* :349-351 *)
     end
   else mkEff None (c0 + count1 lim zn) (if recursive lim then to_u64 sz else to_u64 sz) true (pdir ++ [fnode]) w.                             (* :355-364 *)
@@ -81,8 +83,8 @@ Definition file_eff (lim : limits) (cur base d : Z) (zn : bool) (decl act : Z) (
 Fixpoint entry_eff (lim : limits) (cur base : Z) (e : entry) {struct e} : eff :=
   match e with
   | EDir d => dir_eff lim cur base d
-  | EFile d zn decl act crc op b nested =>
-      file_eff lim cur base d zn decl act crc op b (fun c b' => map (entry_eff lim c b') nested)
+  | EFile d zn decl act crc op b rmok nested =>
+      file_eff lim cur base d zn decl act crc op b rmok (fun c b' => map (entry_eff lim c b') nested)
   end.
 
 (* VFS.UnzipWithContextAndLimits: unzip(ctx, source, destination, limits, 0) *)
